@@ -33,7 +33,14 @@
          3 idx 0 0     transport Dial (idx)     4 allow 0 0    InterceptAccept
          6 inb p allow InterceptSecured         7 allow 0 0    InterceptUpgraded
        gconns / gnotifs: G's ConnsToPeer(R) maximum and Connected notifications;
-       idx^nidx: address index of each admitted connection on G (-1 unknown). *)
+       idx^nidx: address index of each admitted connection on G (-1 unknown).
+
+   DIAGNOSTICS  conform_case: [901; event; clause; detail] (gater), [901; clause; position] (e2e)
+                monitor_case: [902; event; clause; detail; explained] (gater) where
+                  clause 1 probe answer (detail = probe index), 2/3/4 peer/address/subnet list,
+                  explained = 1 iff the same trace is accepted when a subnet rule is identified
+                  by the text IPNet.String() prints instead of by the set of its addresses;
+                [902; clause; ...] (e2e), clauses listed at pipeline_ok. *)
 From Coq Require Import List NArith ZArith Bool.
 From Verif Require Import lib.Wire c10.Model.
 Import ListNotations.
